@@ -35,7 +35,10 @@ def _boot_item(args):
     circ = {'hybrid': any(a['a'] == 'AddIsohybrid' for a in acts),
             'part_offset': any(a['a'] == 'AddIsohybrid' and a.get('part_offset', a.get('offset', 0)) not in (0, None)
                                for a in acts),
-            'unlinked_boot': any(a['a'] == 'RmHardLink' for a in acts),
+            # a boot file that has no name left in any namespace of this configuration (the open
+            # finding C05-unnamed-boot-file-longer-than-load-size is about exactly those)
+            'unlinked_boot': any(e['vis'] == 'none' or (e['vis'] == 'sec' and not (L.CFGS[cfgname]['joliet'] or L.CFGS[cfgname]['udf']))
+                                 for e in hist.get('exp', {}).get('entries', [])) and any(a['a'] == 'RmHardLink' for a in acts),
             'udf': bool(L.CFGS[cfgname]['udf'])}
     it = images.image_item('boot%d' % k, data, [], do_remaster=True)
     return {'id': it['id'], 'item': _only_remaster(it), 'circ': circ, 'src': 'boot',
@@ -77,7 +80,7 @@ def extra(ctx):
         specs = [a['act'].get('spec') for a in h['h'] if a['act']['a'] == 'AddIsohybrid']
         return json.dumps(specs, sort_keys=True)
 
-    for (profile, maxlen, cfgs, cap) in (('c11q', 3 if quick else 4, ['plain', 'all', 'jolrr'], 60 if quick else 600),
+    for (profile, maxlen, cfgs, cap) in (('c11q', 3 if quick else 4, ['plain', 'all', 'jolrr', 'udf'], 60 if quick else 600),
                                          ('c12h', 3 if quick else 4, ['plain', 'udf', 'all'], 60 if quick else 600),
                                          ('c12g', 1, ['plain'], 150 if quick else 600)):
         hs, st = L.behaviours(profile, maxlen, 0, 1, seed=ctx.seed)
